@@ -304,6 +304,61 @@ def fam_concurrent_close(tier: str, rnd: random.Random, limit: int) -> list[dict
     return out
 
 
+GEN_SHAPES = {"deep1": (1, 3, 4, False), "conc": (3, 2, 2, True)}   # callers, requests per caller, retries, assumption alphabet
+
+
+def fam_tlcsim(run: Run, shape: str, num: int, seed: int) -> list[dict]:
+    """Spec -> code beyond the exhaustive bound: behaviours of Protocol.tla generated by TLC's simulation mode
+    (GenProto.tla prints the environment picks of every behaviour), turned into scenarios."""
+    import concurrent.futures as cf
+    nc, nreq, retries, assume = GEN_SHAPES[shape]
+    out = []
+    combos = [(kind, ka) for kind in ("udp", "tcp") for ka in (True, False)]
+
+    def sim(args):
+        kind, ka = args
+        cfg = f"Gen_{kind}_{'ka' if ka else 'nka'}_{shape}"
+        r = tlc.run_tlc("MC_Gen", cfg=cfg, workers=4, simulate=f"num={num}", depth=1500, timeout=1200,
+                        extra=["-seed", str(seed + 1)])
+        if not r["ok"]:
+            raise engine.MachineryError(f"simulation of {cfg} failed (a behaviour of the design model violates the monitor?)\n"
+                                        + r["stdout"][-2500:])
+        return r
+
+    with cf.ThreadPoolExecutor(max_workers=4) as ex:
+        results = list(ex.map(sim, combos))
+    for (kind, ka), r in zip(combos, results):
+        fr = FRAMING[kind]
+        recs = re.findall(r'PICKS\|(\{.*?\})"?\s*$', r["stdout"].replace('\\"', '"'), re.M)
+        seen = set()
+        for k, txt in enumerate(recs):
+            if txt in seen:
+                continue
+            seen.add(txt)
+            pk = json.loads(txt)
+            sc = base(kind, ka, retries)
+            callers = []
+            reg = 100
+            for c in range(nc):
+                prog = []
+                gaps = pk["gaps"][c] if c < len(pk["gaps"]) else []
+                for j in range(nreq):
+                    if j:
+                        prog.append({"do": "sleep", "d": gaps[j - 1] if j - 1 < len(gaps) else 0})
+                    prog.append(req(reg))
+                    reg += 1
+                callers.append({"start": pk["off"][c], "prog": prog})
+            sc["epochs"] = [callers]
+            sc["rfaults"] = [[concrete(mf, fr)[(k + i) % len(concrete(mf, fr))] for i, mf in enumerate(lst)] for lst in pk["rf"]]
+            sc["connects"] = list(pk["conn"])
+            sc["abstract"] = {"rf": pk["rf"], "conn": pk["conn"], "gap": 0, "gaps": pk["gaps"], "off": pk["off"], "shape": "G:" + shape}
+            sc["assume"] = assume
+            sc["family"] = "tlcsim"
+            out.append(sc)
+        run.cov["transitions"] += r.get("generated", 0)
+    return out
+
+
 def fam_random(n: int, rnd: random.Random, assume: bool = False, max_callers: int = 4) -> list[dict]:
     """Deeper random scenarios: more callers, more requests, retries up to 5, the whole alphabet."""
     out = []
@@ -405,7 +460,7 @@ def conformance(run: Run, scenarios: list[dict], traces: list[dict], per_group: 
     for i, sc in enumerate(scenarios):
         if sc.get("family") == "script" and "abstract" in sc and sc["retries"] <= 3 and sc["T"] == T:
             groups.setdefault((sc["kind"], sc["ka"], f"r{sc['retries']}"), []).append(i)
-        elif sc.get("family") == "concurrent" and "abstract" in sc:
+        elif sc.get("family") in ("concurrent", "tlcsim") and "abstract" in sc:
             groups.setdefault((sc["kind"], sc["ka"], sc["abstract"]["shape"]), []).append(i)
     total = drift = 0
     import concurrent.futures as cf
@@ -438,10 +493,11 @@ def conformance(run: Run, scenarios: list[dict], traces: list[dict], per_group: 
                 evs.append(d)
             ncall = max(len(c) for c in sc["epochs"])
             scripts.append({"rf": sc["abstract"]["rf"], "conn": sc["abstract"]["conn"], "gap": sc["abstract"]["gap"],
-                            "off": sc["abstract"].get("off", [0] * ncall), "ev": evs})
-        path = os.path.join(run.workdir, f"conform_{kind}_{'ka' if ka else 'nka'}_{r}.json")
+                            "off": sc["abstract"].get("off", [0] * ncall), "gaps": sc["abstract"].get("gaps", []), "ev": evs})
+        path = os.path.join(run.workdir, f"conform_{kind}_{'ka' if ka else 'nka'}_{r.replace(':', '_')}.json")
         tlc.write_json(path, scripts)
-        jobs.append((path, f"Conform_{kind}_{'ka' if ka else 'nka'}_{r}", idx))
+        cfgname = f"ConformG_{kind}_{'ka' if ka else 'nka'}_{r[2:]}" if r.startswith("G:") else f"Conform_{kind}_{'ka' if ka else 'nka'}_{r}"
+        jobs.append((path, cfgname, idx))
 
     def one(job):
         path, cfg, idx = job
@@ -522,6 +578,7 @@ def check(prop: str, tier: str, seed: int) -> int:
         scen += fam_script([0, 1], [0], conn_variants=True)
         scen += fam_script([1], [2], conn_variants=False)
         scen += fam_random(300 if quick else 6000, rnd)
+        scen += fam_tlcsim(run, "deep1", 10 if quick else 400, seed)
         if not quick:
             scen += fam_script([2], [0], conn_variants=False)
             scen += fam_script([1], [0], conn_variants=False, scale=2)
@@ -542,6 +599,7 @@ def check(prop: str, tier: str, seed: int) -> int:
         scen += fam_concurrent([2], 2, [0, 1, T], tier, rnd, 300 if quick else 6000)
         scen += fam_concurrent([3], 1, [0, 1, T], tier, rnd, 300 if quick else 6000)
         scen += fam_random(200 if quick else 6000, rnd, assume=True, max_callers=4)
+        scen += fam_tlcsim(run, "conc", 10 if quick else 400, seed)
         own = ("C06.",)
     elif prop == "C07":
         scen += fam_frag([1, 2, 8, 125] if quick else [1, 2, 3, 8, 33, 61, 124, 125], tier, rnd)
@@ -563,6 +621,8 @@ def check(prop: str, tier: str, seed: int) -> int:
         scen += fam_script([0, 1], [0], conn_variants=True)
         scen += fam_concurrent([2], 2, [0, 1, T], tier, rnd, 200 if quick else 3000)
         scen += fam_random(200 if quick else 4000, rnd)
+        scen += fam_tlcsim(run, "conc", 5 if quick else 200, seed)
+        scen += fam_tlcsim(run, "deep1", 5 if quick else 200, seed)
         own = ("C10.",)
     else:
         raise ValueError(prop)
